@@ -828,23 +828,26 @@ func (t *tree) parseQuotedExpr(str string, base ast.Pos) ast.Node {
 	return tt.parseExpr(0)
 }
 
+// Operator precedence as the Soy language defines it, loosest to tightest:
+//   ?:  <  or  <  and  <  == !=  <  < > <= >=  <  + -  <  * / %  <  - (unary) not
+// (the ternary ? : is handled separately, at the loosest level.)
 var precedence = map[itemType]int{
-	itemNot:    6,
-	itemNegate: 6,
-	itemMul:    5,
-	itemDiv:    5,
-	itemMod:    5,
-	itemAdd:    4,
-	itemSub:    4,
-	itemEq:     3,
-	itemNotEq:  3,
-	itemGt:     3,
-	itemGte:    3,
-	itemLt:     3,
-	itemLte:    3,
+	itemNot:    8,
+	itemNegate: 8,
+	itemMul:    7,
+	itemDiv:    7,
+	itemMod:    7,
+	itemAdd:    6,
+	itemSub:    6,
+	itemGt:     5,
+	itemGte:    5,
+	itemLt:     5,
+	itemLte:    5,
+	itemEq:     4,
+	itemNotEq:  4,
+	itemAnd:    3,
 	itemOr:     2,
-	itemAnd:    1,
-	itemElvis:  0,
+	itemElvis:  1,
 }
 
 // parseExpr parses an arbitrary expression involving function applications and
